@@ -25,6 +25,7 @@ structure Shape (c : Conn) : Prop where
   closedSess : c.closed = true → c.session = none
   fromSess : c.closed = false → c.fromReceived = true → c.session.isSome = true
   bdatFrom : c.bdat.isSome = true → c.fromReceived = true ∧ c.closed = false
+  idle : c.closed = false → c.session = none → c.recipients = [] ∧ c.didAuth = false
 
 /-- the invariant: the trace so far is accepted from `a0`, ending in the abstraction of the state -/
 structure Good (a0 : A) (s : S) : Prop where
@@ -174,7 +175,7 @@ theorem closeConn_good {a0 : A} {s : S} (h : Good a0 s) :
       simp only [this, if_true]
       refine ⟨h.extend (panics n) hcfg1 (by rw [hev1]; simp [panics]) ?_ ?_, ?_, hcfg1⟩
       · rw [run_panics _ _ _ rfl, hc1]; simp [abs, hs]
-      · rw [hc1]; exact ⟨fun _ => hs, fun hh => by simp [hcl] at hh, fun hh => by simp at hh⟩
+      · rw [hc1]; exact ⟨fun _ => hs, fun hh => by simp [hcl] at hh, fun hh => by simp at hh, fun hh => by simp [hcl] at hh⟩
       · rw [hc1]; cases hcc : s.c; rw [hcc] at hs hcl; simp only at hs hcl; simp [hs, hcl]
     · have hcl' : s.c.closed = false := by simpa using hcl
       have : s1.c.closed = false := by rw [hc1]; exact hcl'
@@ -182,7 +183,7 @@ theorem closeConn_good {a0 : A} {s : S} (h : Good a0 s) :
       refine ⟨h.extend (panics n ++ [.close]) hcfg1 (by simp [hev1, panics]) ?_ ?_, ?_, hcfg1⟩
       · rw [Order.run_append, run_panics _ _ _ rfl]
         simp [Order.run, Order.step, abs, hs, hcl', hc1]
-      · simp only [emit_c]; exact ⟨fun _ => by rw [hc1]; exact hs, fun hh => by simp at hh, fun hh => by simp [hc1] at hh⟩
+      · simp only [emit_c]; exact ⟨fun _ => by rw [hc1]; exact hs, fun hh => by simp at hh, fun hh => by simp [hc1] at hh, fun hh => by simp at hh⟩
       · simp only [emit_c, hc1]; cases hcc : s.c; rw [hcc] at hs; simp only at hs; simp [hs]
   | some id =>
     have hcl' : s.c.closed = false := by
@@ -197,7 +198,7 @@ theorem closeConn_good {a0 : A} {s : S} (h : Good a0 s) :
     refine ⟨h.extend (panics n ++ [.logout id, .close]) hcfg1 (by simp [hev1, panics]) ?_ ?_, ?_, hcfg1⟩
     · rw [Order.run_append, run_panics _ _ _ rfl]
       simp [Order.run, Order.step, abs, hs, hcl']
-    · simp only [emit_c]; exact ⟨fun _ => rfl, fun hh => by simp at hh, fun hh => by simp at hh⟩
+    · simp only [emit_c]; exact ⟨fun _ => rfl, fun hh => by simp at hh, fun hh => by simp at hh, fun hh => by simp at hh⟩
     · simp
 
 
@@ -218,7 +219,8 @@ theorem resetConn_good {a0 : A} {s : S} (h : Good a0 s) :
     refine ⟨h.extend (panics n) hcfg1 (by simp [hev1, panics]) ?_ ?_, by simp [hc1], hcfg1⟩
     · rw [run_panics _ _ _ rfl]; simp [abs, hs, hc1]
     · simp only [hc1]
-      exact ⟨hsh.closedSess, fun _ hh => by simp at hh, fun hh => by simp at hh⟩
+      exact ⟨hsh.closedSess, fun _ hh => by simp at hh, fun hh => by simp at hh,
+        fun hc hn => ⟨rfl, (hsh.idle hc hn).2⟩⟩
   | some id =>
     have e2 : resetSess s1 = emit s1 (.reset id) := by unfold resetSess; rw [hc1]; simp [hs]
     rw [e2]
@@ -226,11 +228,12 @@ theorem resetConn_good {a0 : A} {s : S} (h : Good a0 s) :
     · rw [Order.run_append, run_panics _ _ _ rfl]
       simp [Order.run, Order.step, abs, hs, hc1]
     · simp only [emit_c, hc1]
-      exact ⟨hsh.closedSess, fun _ hh => by simp at hh, fun hh => by simp at hh⟩
+      exact ⟨hsh.closedSess, fun _ hh => by simp at hh, fun hh => by simp at hh,
+        fun hc hn => ⟨rfl, (hsh.idle hc hn).2⟩⟩
 
 theorem bump_good {a0 : A} {s : S} (h : Good a0 s) :
     Good a0 { s with c := { s.c with errCount := s.c.errCount + 1 } } :=
-  h.of_c rfl rfl rfl ⟨h.shape.closedSess, h.shape.fromSess, h.shape.bdatFrom⟩
+  h.of_c rfl rfl rfl ⟨h.shape.closedSess, h.shape.fromSess, h.shape.bdatFrom, h.shape.idle⟩
 
 theorem protocolError_good {a0 : A} {s : S} (h : Good a0 s) (code : Nat) (enh : Enh) (t : String) :
     Good a0 (protocolError s code enh t) ∧ (protocolError s code enh t).cfg = s.cfg := by
@@ -330,7 +333,7 @@ theorem ev_rcpt {a0 : A} {s s1 : S} (h : Good a0 s) (hs : Same s s1) {id : Nat} 
     · simp only [Order.run, Order.step, abs, hid, hfrom, hb, hs.c]
       simp [hmax', hs.c, hid, hfrom, hb]
     · simp only [hs.c]
-      exact ⟨h.shape.closedSess, h.shape.fromSess, h.shape.bdatFrom⟩
+      exact ⟨h.shape.closedSess, h.shape.fromSess, h.shape.bdatFrom, fun _ hn => by simp [hid] at hn⟩
 
 theorem handleRcpt_good {a0 : A} {s : S} (h : Good a0 s) (arg : Bytes) :
     Good a0 (handleRcpt s arg).1 ∧ (handleRcpt s arg).1.cfg = s.cfg := by
